@@ -69,6 +69,7 @@ async def amain(spec: dict) -> dict:
     per_trace_count: dict = {}
     sig = spec.get('signal')
     n_events = 0
+    n_prompts = 0
     signalled = False
     t_start = time.time()
 
@@ -97,7 +98,7 @@ async def amain(spec: dict) -> dict:
             rec['hooks'].append(entry)
             if name.startswith('on_') and name not in ('on_start_run', 'on_end_run', 'on_initialize_run', 'on_finished'):
                 n_events += 1
-                if sig and not signalled and n_events >= sig['at_event']:
+                if sig and not signalled and sig.get('at_event') and n_events >= sig['at_event']:
                     signalled = True
                     rec['signal_sent_at_event'] = n_events
                     await getattr(context.nextline, sig['kind'])()
@@ -152,7 +153,15 @@ async def amain(spec: dict) -> dict:
 
         @hookimpl
         async def on_start_prompt(self, context: Any, event: Any) -> None:
+            nonlocal n_prompts, signalled
             await self._ev('on_start_prompt', context, event)
+            n_prompts += 1
+            if sig and not signalled and sig.get('at_prompt') == n_prompts:
+                # the child is quiescent in this trace (blocked waiting for the answer): signal instead of answering
+                signalled = True
+                rec['signal_sent_at_prompt'] = n_prompts
+                await getattr(context.nextline, sig['kind'])()
+                return
             if spec.get('mode', 'interactive') == 'continuous':
                 return
             cmd = choose(event)
@@ -236,8 +245,12 @@ async def amain(spec: dict) -> dict:
 def main() -> None:
     logging.disable(logging.CRITICAL)
     spec = json.loads(Path(sys.argv[1]).read_text())
-    rec = asyncio.run(amain(spec))
+    loop = asyncio.new_event_loop()
+    rec = loop.run_until_complete(amain(spec))
     Path(sys.argv[2]).write_text(json.dumps(rec, default=str))
+    sys.stdout.flush()
+    # a run that never finished leaves worker threads blocked in queue.get(); do not wait for them
+    os._exit(0)
 
 
 if __name__ == '__main__':
